@@ -58,7 +58,11 @@ def run(chk):
     chk.assumptions = ["lookup_order (GE/Thm/C13Link.lean): over the model of the table the emitted code builds, a <template is> finds a local definition "
                        "first, otherwise the definition in the LAST import (source order) whose target is registered and defines the name, never the main "
                        "template; any registered files, any import list (repetitions, unregistered targets), any name. JavaScript objects are modelled as "
-                       "association lists (get = latest write); PARTIAL: that dependency queries list exactly the resolved targets is oracle only",
+                       "association lists (get = latest write); PARTIAL: that dependency queries list exactly the resolved targets is oracle only (direct_dependencies vs every <import> / <include> tag of generated tag sequences, "
+                       "and vs the multi-file group oracle). leaves_parse (GE/Thm/C13Leaves.lean): over the tag-level model of the parser (GE/Model/TagTree.lean, tied by corr:tagtree / "
+                       "corr:tagleaves), the tree keeps exactly the <include> / <template is> elements of the source in document order, for every sequence of tags whose wx:if groups "
+                       "have the shape wx:if, wx:elif*, wx:else? - so every include the rendering can reach is a listed dependency; second_else_loses: a replaced wx:else branch keeps "
+                       "its includes as dependencies only",
                        "TmplGroup::add_tmpl does not normalise its path argument (only the wasm binding does); "
                        "the property is checked on the resolver and on the group API with normalised registration paths"]
     failed, log = chk.prove("GE.Thm.C13", THEOREMS)
@@ -67,9 +71,14 @@ def run(chk):
     failed, log = chk.prove("GE.Thm.C13Link", ["GE.Link.lookup_order", "GE.Link.local_first", "GE.Link.main_not_callable", "GE.Link.get_merged"])
     for t in failed:
         chk.violation("proof", f"obligation {t} no longer checks", theorem=t, log=log[-2000:])
+    failed, log = chk.prove("GE.Thm.C13Leaves", ["GE.TagTree.leaves_parse", "GE.TagTree.step_leaves", "GE.TagTree.findIf_leaves", "GE.TagTree.second_else_loses"])
+    for t in failed:
+        chk.violation("proof", f"obligation {t} no longer checks", theorem=t, log=log[-2000:])
     ok, log = core.lake_build(["gedriver"])
     if not ok:
         raise core.BrokenTie("driver-build", log)
+    from . import tagtree
+    tagtree.deps_stream(chk, chk.rng.fork("tagdeps"), 400 if chk.tier != "thorough" else 8000)
 
     maxseg = 4 if chk.tier == "thorough" else 3
     paths = all_paths(maxseg)
